@@ -339,7 +339,7 @@ class Prov:
         body = self.body
         if 1 <= l <= body["arg_count"]:
             return {("arg", l)}
-        if depth > 12:
+        if depth > getattr(self, "max_depth", 12):
             return {("local", l)}
         ds = self.defs.get(l)
         if not ds:
